@@ -766,15 +766,36 @@ int main(int argc, char** argv) {
                 pc0 = RandomCodeBase(g);
             while (pc0 < 0x100);
             u32 vec = line < 3 ? 0x0006 + 8 * line : 0;
-            unsigned L = 3 + (unsigned)g.below(6);
+            // L counts single-cycle steps; one element in three programs is a single-instruction repeat "rep #n ; X"
+            // (1 + n+1 steps): a request raised while the rep instruction itself or a non-final repetition executes is
+            // held off (C07), one raised during the final repetition or any other instruction is entered at that boundary
+            unsigned L = 0;
+            const unsigned n_ins = 3 + (unsigned)g.below(6);
+            const int rep_at = g.chance(1, 3) ? (int)g.below(n_ins) : -1;
             std::vector<u16> w;
-            std::vector<u32> starts;
-            for (unsigned i = 0; i < L; ++i) {
-                const PoolIns& pi = g.pick(T.pool);
+            std::vector<u32> starts; // per step: address of the instruction executed in it
+            for (unsigned i = 0; i < n_ins; ++i) {
+                const PoolIns* pi = &g.pick(T.pool);
+                if ((int)i == rep_at) {
+                    while (pi->two)
+                        pi = &g.pick(T.pool);
+                    const unsigned n = (unsigned)g.below(4);
+                    starts.push_back(pc0 + (u32)w.size());
+                    w.push_back((u16)(0x0C00 | n));
+                    ++L;
+                    for (unsigned r = 0; r <= n; ++r) {
+                        starts.push_back(pc0 + (u32)w.size());
+                        ++L;
+                    }
+                    w.push_back(pi->op);
+                    ctx.count("int_programs_with_rep");
+                    continue;
+                }
                 starts.push_back(pc0 + (u32)w.size());
-                w.push_back(pi.op);
-                if (pi.two)
+                w.push_back(pi->op);
+                if (pi->two)
                     w.push_back((u16)g.edge16());
+                ++L;
             }
             const u32 end = pc0 + (u32)w.size();
             starts.push_back(end);
